@@ -41,18 +41,16 @@ import (
 const clusterMax = 6
 
 type clusterScenario struct {
-	N           int   `json:"n"`
-	List        []int `json:"list"` // container nodes sorted for the object
-	Rep         int   `json:"rep"`
-	Holders     []int `json:"holders"` // initial distribution
-	FaultRounds int   `json:"faultRounds"`
+	N           int     `json:"n"`
+	Rules       []ruleJ `json:"rules"`   // REP rules: container nodes sorted for the object + number of copies
+	Holders     []int   `json:"holders"` // initial distribution
+	FaultRounds int     `json:"faultRounds"`
 }
 
 type clusterEvent struct {
-	Ev      string  `json:"ev"` // init | check | end
+	Ev      string  `json:"ev"` // init | check | task | end
 	N       int     `json:"n"`
-	List    []int   `json:"list"`
-	Rep     int     `json:"rep"`
+	Rules   []ruleJ `json:"rules"`
 	Node    int     `json:"node"`
 	Down    []int   `json:"down"`
 	Refuse  []int   `json:"refuse"` // answer HEAD, refuse replicas
@@ -79,6 +77,7 @@ type clusterWorld struct {
 	cnr   cid.ID
 
 	sc   *clusterScenario
+	obj  *object.Object
 	addr oid.Address
 	down map[int]bool
 	refuse map[int]bool
@@ -95,11 +94,17 @@ func (x clusterNet) IsLocalNodePublicKey(k []byte) bool {
 }
 func (x clusterNet) GetNodesForObject(oid.Address) ([][]netmap.NodeInfo, []uint, []policer.VerifECRule, error) {
 	w := x.n.w
-	l := make([]netmap.NodeInfo, len(w.sc.List))
-	for i, id := range w.sc.List {
-		l[i] = w.ids[id].info
+	var lists [][]netmap.NodeInfo
+	var reps []uint
+	for _, rl := range w.sc.Rules {
+		l := make([]netmap.NodeInfo, len(rl.Nodes))
+		for i, id := range rl.Nodes {
+			l[i] = w.ids[id].info
+		}
+		lists = append(lists, l)
+		reps = append(reps, uint(rl.N))
 	}
-	return [][]netmap.NodeInfo{l}, []uint{uint(w.sc.Rep)}, nil, nil
+	return lists, reps, nil, nil
 }
 
 // recording wrapper around the real replicator of the node
@@ -216,7 +221,7 @@ func (w *clusterWorld) holders() []int {
 
 // check runs one policy check of the object on node id and returns the event.
 func (w *clusterWorld) check(id int, down, refuse []int, round int) clusterEvent {
-	ev := clusterEvent{Ev: "check", List: []int{}, Node: id, Down: append([]int{}, down...), Refuse: append([]int{}, refuse...), Del: "none", Tasks: []taskJ{}, Rep2: [][]int{}, Round: round}
+	ev := clusterEvent{Ev: "check", Rules: []ruleJ{}, Node: id, Down: append([]int{}, down...), Refuse: append([]int{}, refuse...), Del: "none", Tasks: []taskJ{}, Rep2: [][]int{}, Round: round}
 	w.ev = &ev
 	w.down = map[int]bool{}
 	for _, d := range down {
@@ -243,6 +248,46 @@ func (w *clusterWorld) check(id int, down, refuse []int, round int) clusterEvent
 	return ev
 }
 
+// task hands a replication task carrying the object to the REAL replicator of node id.
+func (w *clusterWorld) task(id int, nodes []int, q int, down, refuse []int) clusterEvent {
+	ev := clusterEvent{Ev: "task", Rules: []ruleJ{}, Node: id, Down: append([]int{}, down...), Refuse: append([]int{}, refuse...), Del: "none", Tasks: []taskJ{}, Rep2: [][]int{}}
+	w.ev = &ev
+	w.down, w.refuse = map[int]bool{}, map[int]bool{}
+	for _, d := range down {
+		w.down[d] = true
+	}
+	for _, d := range refuse {
+		w.refuse[d] = true
+	}
+	var t replicator.Task
+	t.SetObject(w.obj)
+	t.SetObjectAddress(w.addr)
+	t.SetCopiesNumber(uint32(q))
+	nis := make([]netmap.NodeInfo, len(nodes))
+	for i, x := range nodes {
+		nis[i] = w.ids[x].info
+	}
+	t.SetNodes(nis)
+	clusterRepl{w.nodes[id]}.HandleTask(context.Background(), t, nopResult{})
+	w.down, w.refuse = map[int]bool{}, map[int]bool{}
+	ev.Holders = w.holders()
+	// remote stores are seen by the fake connections; the local node is written through the engine directly: it
+	// counts as stored when the replicator reported it and the engine really holds the object now
+	localStored := slices.Contains(ev.Rep2[0], id) && slices.Contains(ev.Holders, id)
+	ok := []int{}
+	for _, x := range nodes {
+		if (x == id && localStored) || (x != id && slices.Contains(ev.Tasks[0].Ok, x)) {
+			ok = append(ok, x)
+		}
+	}
+	ev.Tasks[0].Ok = ok
+	return ev
+}
+
+type nopResult struct{}
+
+func (nopResult) SubmitSuccessfulReplication(netmap.NodeInfo) {}
+
 // maxStable is larger than the model's bound: the trace spec, not the harness, decides whether the number
 // of rounds needed is acceptable.
 const maxStable = 8
@@ -257,10 +302,11 @@ func (w *clusterWorld) runScenario(sc clusterScenario, r *rand.Rand, out *kit.W)
 	obj.SetPayloadSize(uint64(len(pl)))
 	kit.Must(obj.SetVerificationFields(signer))
 	w.addr = oid.NewAddress(w.cnr, obj.GetID())
+	w.obj = obj
 	for _, h := range sc.Holders {
 		kit.Must(w.nodes[h].eng.Put(context.Background(), obj, nil))
 	}
-	out.Emit(clusterEvent{Ev: "init", N: sc.N, List: sc.List, Rep: sc.Rep, Holders: w.holders(), Down: []int{}, Refuse: []int{}, Tasks: []taskJ{}, Rep2: [][]int{}, Del: "none"})
+	out.Emit(clusterEvent{Ev: "init", N: sc.N, Rules: sc.Rules, Holders: w.holders(), Down: []int{}, Refuse: []int{}, Tasks: []taskJ{}, Rep2: [][]int{}, Del: "none"})
 	round := func(faulty bool, no int) (quiet bool) {
 		quiet = true
 		order := w.holders()
@@ -283,10 +329,40 @@ func (w *clusterWorld) runScenario(sc clusterScenario, r *rand.Rand, out *kit.W)
 					}
 				}
 			}
+			if faulty && r.Intn(3) == 0 {
+				// the node's replicator gets a task that CARRIES the object (post-placement replication, re-created
+				// EC part): the local node may be among the target nodes, fewer copies than nodes are requested
+				p := r.Perm(sc.N)
+				k := 2 + r.Intn(sc.N-1)
+				nodes := make([]int, 0, k)
+				for _, x := range p[:k] {
+					nodes = append(nodes, x+1)
+				}
+				if !slices.Contains(nodes, id) || r.Intn(2) == 0 {
+					nodes[r.Intn(len(nodes))] = id
+					nodes = slices.Compact(nodes)
+				}
+				seen := map[int]bool{}
+				uniq := nodes[:0]
+				for _, x := range nodes {
+					if !seen[x] {
+						seen[x] = true
+						uniq = append(uniq, x)
+					}
+				}
+				tev := w.task(id, uniq, 1+r.Intn(len(uniq)), down, refuse)
+				sort.Ints(tev.Holders)
+				out.Emit(tev)
+			}
 			ev := w.check(id, down, refuse, no)
 			sort.Ints(ev.Holders)
 			out.Emit(ev)
-			if len(ev.Tasks) > 0 || ev.Del != "none" {
+			for _, tk := range ev.Tasks { // a task without candidate nodes copies nothing
+				if len(tk.Nodes) > 0 {
+					quiet = false
+				}
+			}
+			if ev.Del != "none" {
 				quiet = false
 			}
 		}
@@ -300,21 +376,28 @@ func (w *clusterWorld) runScenario(sc clusterScenario, r *rand.Rand, out *kit.W)
 		quiet = round(false, rounds)
 		rounds++
 	}
-	out.Emit(clusterEvent{Ev: "end", List: []int{}, Round: rounds, Quiet: quiet, Holders: w.holders(), Down: []int{}, Refuse: []int{}, Tasks: []taskJ{}, Rep2: [][]int{}, Del: "none"})
+	out.Emit(clusterEvent{Ev: "end", Rules: []ruleJ{}, Round: rounds, Quiet: quiet, Holders: w.holders(), Down: []int{}, Refuse: []int{}, Tasks: []taskJ{}, Rep2: [][]int{}, Del: "none"})
 }
 
 func randomCluster(r *rand.Rand, maxN int) clusterScenario {
 	n := 3 + r.Intn(maxN-2)
-	p := r.Perm(n)
-	ll := 1 + r.Intn(n)
+	nr := 1
 	if r.Intn(2) == 0 {
-		ll = n
+		nr = 2
 	}
-	list := make([]int, ll)
-	for i := range list {
-		list[i] = p[i] + 1
+	var rules []ruleJ
+	for k := 0; k < nr; k++ {
+		p := r.Perm(n)
+		ll := 1 + r.Intn(n)
+		if nr == 1 && r.Intn(2) == 0 {
+			ll = n
+		}
+		list := make([]int, ll)
+		for i := range list {
+			list[i] = p[i] + 1
+		}
+		rules = append(rules, ruleJ{Nodes: list, N: 1 + r.Intn(min(3, ll))})
 	}
-	rep := 1 + r.Intn(min(3, ll))
 	var holders []int
 	for len(holders) == 0 {
 		for i := 1; i <= n; i++ {
@@ -323,7 +406,7 @@ func randomCluster(r *rand.Rand, maxN int) clusterScenario {
 			}
 		}
 	}
-	return clusterScenario{N: n, List: list, Rep: rep, Holders: holders, FaultRounds: r.Intn(3)}
+	return clusterScenario{N: n, Rules: rules, Holders: holders, FaultRounds: r.Intn(3)}
 }
 
 // c27 rnd <n> <maxNodes> <scenarios.ndjson>
@@ -340,22 +423,43 @@ func c27(args []string) {
 			out.Emit(randomCluster(r, maxN))
 		}
 		out.Close()
-	case "all":
+	case "all": // c27 all <nodes> <out> [two]: every policy of one rule (or of two rules with lists of <= 2 nodes)
 		n, _ := strconv.Atoi(args[1])
 		out := kit.NewW(args[2])
-		seqsDistinct(n, n, func(l []int) {
+		two := len(args) > 3 && args[3] == "two"
+		var single []ruleJ
+		maxLen := n
+		if two {
+			maxLen = 2
+		}
+		seqsDistinct(n, maxLen, func(l []int) {
 			for rep := 1; rep <= len(l) && rep <= 3; rep++ {
-				for mask := 1; mask < 1<<n; mask++ {
-					var hs []int
-					for i := 0; i < n; i++ {
-						if mask&(1<<i) != 0 {
-							hs = append(hs, i+1)
-						}
-					}
-					out.Emit(clusterScenario{N: n, List: l, Rep: rep, Holders: hs})
-				}
+				single = append(single, ruleJ{Nodes: l, N: rep})
 			}
 		})
+		var policies [][]ruleJ
+		if two {
+			for _, a := range single {
+				for _, b := range single {
+					policies = append(policies, []ruleJ{a, b})
+				}
+			}
+		} else {
+			for _, a := range single {
+				policies = append(policies, []ruleJ{a})
+			}
+		}
+		for _, pol := range policies {
+			for mask := 1; mask < 1<<n; mask++ {
+				var hs []int
+				for i := 0; i < n; i++ {
+					if mask&(1<<i) != 0 {
+						hs = append(hs, i+1)
+					}
+				}
+				out.Emit(clusterScenario{N: n, Rules: pol, Holders: hs})
+			}
+		}
 		out.Close()
 		fmt.Println(out.N)
 	case "run":
